@@ -200,8 +200,11 @@ def _effects(trace, before, after, res, allowed, V, phase):
                 rel = path[6:]
                 if rel in allowed["inputs"]:
                     V("input-opened-writable", phase, path=rel)
-                elif rel not in allowed["out"]:
-                    V("unexpected-path", phase, path=rel, via="open-for-write")
+                elif rel not in allowed["out"] and rel in before:
+                    V("bystander-modified", phase, path=rel, what="opened for writing")
+                # a NEW path opened for writing (a temporary file, say) is judged by the before/after snapshot:
+                # if it is still there at the end it is an unexpected-path, if it was renamed into an output or
+                # removed again nothing else was created
         else:
             # rename / remove / rmdir / chmod / ...: a violation when it touches something that existed before the
             # run and is not one of the allowed outputs, or anything outside the sandbox. (Creating a temporary file
